@@ -106,6 +106,9 @@ func runC20(t *testing.T, seed uint64, planJSON []byte, tier string) (res *Resul
 		sim.MaxStep = 5000000
 		sim.MaxTime = 100000 * time.Hour
 		w.Hook.park = false
+		// xids of a server that has been up for a while (session selection by
+		// xid hash sees other parts of its ring from run to run)
+		w.TC.StartXidsAt(1000 + int64(seed%977)*131)
 		w.Hook.latencyMs, w.Hook.latSeq = 3, seed|1
 		sim.Batch, sim.BatchWindow = true, 20*time.Millisecond
 		w.CreateUndoLog(atSchema)
@@ -404,6 +407,14 @@ func runC20(t *testing.T, seed uint64, planJSON []byte, tier string) (res *Resul
 			sim.Note("scheduling points: %d delays at %d active sites", fired, sites)
 			for i := 0; i < fired; i++ {
 				sim.Fault("goroutine-delayed-at-lock")
+			}
+			if n, met := ys.recursiveReadLocks(); n > 0 {
+				for i := 0; i < n; i++ {
+					sim.Probe("c20-read-lock-taken-twice-by-one-goroutine")
+				}
+				for i := 0; i < met; i++ {
+					sim.Probe("c20-read-lock-taken-twice-with-writer-queued")
+				}
 			}
 		}
 		mu.Lock()
